@@ -7,7 +7,7 @@ import json, os, select, subprocess, threading, queue, signal, resource, time
 
 HARNESS = os.path.join(os.path.dirname(os.path.dirname(os.path.abspath(__file__))), "harness")
 BUILT = os.path.join(HARNESS, "target", "debug", "mechverif")
-BIN = BUILT
+BIN = os.environ.get("VERIF_EXEC_BIN") or BUILT      # development aid: a pinned executor copy (bin/runall)
 _private = [None]
 
 def use_private_copy():
